@@ -457,3 +457,33 @@ SPECS += [
          params={}, ret="Unit", return_unit=["self._output_info"], property=True,
          conds={"self._output_info is None": "(self_has_info = false)"}, props=["C06", "C20"]),
 ]
+
+
+# ---- adapters/regrid.py : the metadata side of the regridding adapters (C07 C16) --------------------------------------
+# grids are identifiers, masks `None` / FLEX / NONE / an explicit mask id; the upstream exchange (`self.exchange_info`) is
+# given by its answer (in_grid, in_mask), `_update_grid_specs` is RegridNearest's as far as the metadata are concerned
+# (`_check_and_set_out_mask()`), `x.crs` of a grid is a relation of the catalogue (an `AttributeError` for `NoGrid`)
+CRSOF = "Lean:((Option Nat) → Except Err (Option Nat))"
+CSOM = {"lean": "ARegridding__check_and_set_out_mask", "args": ["self.output_mask", "self.downstream_mask", "self._out_mask_checked", "masksEqual"],
+        "argtypes": [MASK, MASK, "Bool", MASKEQ], "stmt": True, "updates": ["_out_mask_checked", "output_mask"]}
+SPECS += [
+    dict(lean="ARegridding__check_and_set_out_mask", path="adapters/regrid.py", qual="ARegridding._check_and_set_out_mask", group="Regrid",
+         fields={"output_mask": MASK, "downstream_mask": MASK, "_out_mask_checked": "Bool"}, params={},
+         extra_params={"masksEqual": MASKEQ}, ret="Unit",
+         calls={"dtools.masks_compatible": {"lean": "masks_compatible", "args": [0, 1, 2, "None", "None", "masksEqual"],
+                                            "argtypes": [MASK, MASK, "Bool", "Opt[Obj]", "Opt[Obj]", MASKEQ], "ret": "Bool"}},
+         drop_assign=["msg"], props=["C07", "C16"]),
+    dict(lean="ARegridding__get_info", path="adapters/regrid.py", qual="ARegridding._get_info", group="Regrid",
+         fields={"input_grid": "Opt[Obj]", "output_grid": "Opt[Obj]", "output_mask": MASK, "downstream_mask": MASK, "input_mask": MASK,
+                 "_is_initialized": "Bool", "_out_mask_checked": "Bool"},
+         params={}, ignore_params=["info"], ignore_fields=["input_meta", "transformer"],
+         extra_params={"info_grid": "Opt[Obj]", "info_mask": MASK, "in_grid": "Opt[Obj]", "in_mask": MASK,
+                       "gridNe": "Lean:((Option Nat) → (Option Nat) → Bool)", "crsOf": CRSOF, "masksEqual": MASKEQ},
+         ret="Unit", return_unit=["in_info.copy_with(grid=self.output_grid, mask=self.output_mask)"],
+         alias={"info.grid": "info_grid", "info.mask": "info_mask", "in_info.grid": "in_grid", "in_info.mask": "in_mask",
+                "self.input_grid.crs": "crs_of(self.input_grid)", "self.output_grid.crs": "crs_of(self.output_grid)"},
+         conds={"self.output_grid != info_grid": "(gridNe self_output_grid info_grid = true)"},
+         calls={"crs_of": {"lean": "crsOf", "args": [0], "argtypes": ["Opt[Obj]"], "ret": "Opt[Obj]"},
+                "self._update_grid_specs": CSOM, "self._check_and_set_out_mask": CSOM},
+         drop_assign=["request", "in_info", "self.input_meta", "self.transformer", "msg"], props=["C07", "C16"]),
+]
